@@ -201,10 +201,12 @@ for i in range(160 * N):
     tag = R.choice([0, 1, 19036, 20326, 65535]) if not bad else R.choice([19036, 65536, -1])
     alg = R.choice([5, 8, 10, 13, 14, 0, 255]) if not bad else R.choice([8, 256])
     name = "." if i % 29 else "example."
+    # a time given with a fraction of a second (the readers accept one) is signed as the whole second it lies in, the second the SKR states
+    exp_frac, inc_frac = R.choice([0, 0, 1, 499999, 500000, 750000, 999999]), R.choice([0, 0, 1, 499999, 500000, 750000, 999999])
     sig = Signature.model_construct(key_identifier="K0", ttl=ttl, type_covered=TypeDNSSEC.DNSKEY,
                                     algorithm=AlgorithmDNSSEC(alg) if alg in ALGS else fake_alg(alg), labels=labels,
-                                    original_ttl=ottl, signature_expiration=from_us(exp_s * 10**6),
-                                    signature_inception=from_us(inc_s * 10**6), key_tag=tag, signers_name=name,
+                                    original_ttl=ottl, signature_expiration=from_us(exp_s * 10**6 + exp_frac),
+                                    signature_inception=from_us(inc_s * 10**6 + inc_frac), key_tag=tag, signers_name=name,
                                     signature_data=b"")
     R.shuffle(keys)
     if i % 3 == 1:
@@ -226,7 +228,7 @@ for i in range(160 * N):
         except Exception as e:  # noqa: BLE001
             msg = f"reference unavailable: {type(e).__name__}: {e}"
     add("tbs", f"CTbs {coq_sig(sig, with_data=False)} [{';'.join(coq_key(k, with_txt=False) for k in keys)}] {res_coq(it, zlist)}",
-        {"sig": {"alg": alg, "labels": labels, "ottl": ottl, "ttl": ttl, "exp": exp_s, "inc": inc_s, "tag": tag, "name": name},
+        {"sig": {"alg": alg, "labels": labels, "ottl": ottl, "ttl": ttl, "exp": exp_s, "inc": inc_s, "exp_microseconds": exp_frac, "inc_microseconds": inc_frac, "tag": tag, "name": name},
          "keys": [(k.flags, k.algorithm.value, base64.b64decode(k.public_key).hex()) for k in keys]}, ok, msg)
 
 # 4 --- DS preimage / digest, 5 --- revocation
